@@ -305,7 +305,7 @@ def deserialize_address(address, encoding=None, network=None):
             pkh_incl = addr_bech32_to_pubkeyhash(address, include_witver=True)
             public_key_hash = pkh_incl[2:]
             witver = pkh_incl[0] - 0x50 if pkh_incl[0] else 0
-            prefix = address[:address.rfind('1')]
+            prefix = address[:address.rfind('1')].lower()
             networks = network_by_value('prefix_bech32', prefix)
             witness_type = 'segwit' if not witver else 'taproot'
             if len(public_key_hash) == 20:
